@@ -55,9 +55,13 @@ def evaluate(case):
     spec, table, opts = case["spec"], case["table"], case["opts"]
     n = sp.table_nrows(table)
     P = positions(n, opts)
+    rspec = spec
+    if spec.get("kind") == "column":
+        # a standalone Column validating a frame means: that column, required, nothing else
+        rspec = {"kind": "dataframe", "columns": [dict(spec["columns"][0], required=True)], "index": None}
     try:
-        ref_sub = refmodel.ref_validate(spec, table, rows=P, restrict_all=True)
-        ref_full = refmodel.ref_validate(spec, table)
+        ref_sub = refmodel.ref_validate(rspec, table, rows=P, restrict_all=True)
+        ref_full = refmodel.ref_validate(rspec, table)
     except refmodel.Undefined as e:
         ev.skipped = "undefined:" + str(e).split(" on ")[0][:40]
         return ev
@@ -100,7 +104,7 @@ def evaluate(case):
         elif accepted:
             try:
                 got = fp.snapshot(o["value"])
-                want = c01.expected_output_snapshot(case, data, ref_sub)
+                want = c01.expected_output_snapshot(case, data, ref_sub) if spec.get("kind") != "column" else fp.snapshot(data)
                 if got != want:
                     ev.add(f"subsample-result-not-whole-object:{mode}", {"opts": opts, "diff": fp.fp_diff(want, got)})
             except Exception as e:
@@ -163,7 +167,13 @@ def strategy(draw):
             opts["tail"] = draw(st.sampled_from([n - b - 1, n - b]))
     if draw(st.integers(0, 3)) == 0:
         opts["head_all_relation"] = True
-    return {"spec": base["spec"], "table": base["table"], "opts": opts}
+    spec = base["spec"]
+    if spec.get("kind", "dataframe") == "dataframe" and draw(st.integers(0, 5)) == 0:
+        names = [t["name"] for t in base["table"]["columns"]]
+        cols = [c for c in spec["columns"] if not c.get("regex") and c["name"] in names and names.count(c["name"]) == 1]
+        if cols:
+            spec = {"kind": "column", "columns": [draw(st.sampled_from(cols))]}
+    return {"spec": spec, "table": base["table"], "opts": opts}
 
 
 @known.finding("C20/pandas-subsample-dedups-by-index-label")
@@ -179,7 +189,7 @@ def _kf_label_dedup(family, case, disc):
 
 FAMILIES = [
     Family("pandas", evaluate, strategy=strategy, n_quick=600, n_thorough=5000, shards_quick=4, shards_thorough=16,
-           required_labels=["dup-index-labels", "verdict-depends-on-selection", "opts=sample", "kind=series"]),
+           required_labels=["dup-index-labels", "verdict-depends-on-selection", "opts=sample", "kind=series", "kind=column"]),
 ]
 
 from . import plx  # noqa: E402
